@@ -310,7 +310,7 @@ pub fn merge_child(m: &mut Merged, job: &Job, r: ChildResult, prop: &str) {
     let code = r.code.unwrap_or(-(r.signal.unwrap_or(0)));
     m.raw.push((job.label.clone(), code, tail(&r.stdout, 5), tail(&r.stderr, 25)));
     match job.death {
-        Death::Violation if r.signal.is_some() || r.code == Some(101) || r.code == Some(134) => {
+        Death::Violation if (r.signal.is_some() && r.signal != Some(15) && r.signal != Some(9)) || r.code == Some(101) || r.code == Some(134) => {
             let what = if let Some(s) = r.signal {
                 format!("signal{}", s)
             } else {
